@@ -273,8 +273,15 @@ func (e *ArrayExp) FindRefs() []*RefExp {
 
 func (e *MapExp) FindRefs() []*RefExp {
 	var result []*RefExp
-	for _, v := range e.Value {
-		r := v.FindRefs()
+	// In key order: the result ends up in serialized call graphs (retained
+	// references) and in error messages.
+	keys := make([]string, 0, len(e.Value))
+	for k := range e.Value {
+		keys = append(keys, k)
+	}
+	sort.Strings(keys)
+	for _, k := range keys {
+		r := e.Value[k].FindRefs()
 		if len(r) > 0 {
 			if len(result) == 0 {
 				result = r
